@@ -8,9 +8,11 @@ pub mod c07;
 pub mod c09;
 pub mod c10;
 pub mod c11;
+pub mod c12;
 pub mod c13;
 pub mod c14;
 pub mod c15;
+pub mod c16;
 pub mod c17;
 pub mod c18;
 pub mod common;
@@ -26,9 +28,11 @@ pub fn run(id: &str, tier: Tier, seed: u64) -> i32 {
         "C09" => c09::run(tier, seed),
         "C10" => c10::run(tier, seed),
         "C11" => c11::run(tier, seed),
+        "C12" => c12::run(tier, seed),
         "C13" => c13::run(tier, seed),
         "C14" => c14::run(tier, seed),
         "C15" => c15::run(tier, seed),
+        "C16" => c16::run(tier, seed),
         "C17" => c17::run(tier, seed),
         "C18" => c18::run(tier, seed),
         _ => {
@@ -49,9 +53,11 @@ pub fn replay(id: &str, case: &serde_json::Value) -> CaseResult {
         "C09" => c09::replay(case),
         "C10" => c10::replay(case),
         "C11" => c11::replay(case),
+        "C12" => c12::replay(case),
         "C13" => c13::replay(case),
         "C14" => c14::replay(case),
         "C15" => c15::replay(case),
+        "C16" => c16::replay(case),
         "C17" => c17::replay(case),
         "C18" => c18::replay(case),
         _ => panic!("no check for {}", id),
